@@ -92,6 +92,7 @@ func main() {
 	r.Floor("decode.ok.roundtrip", 200)
 	r.Floor("decode.error", 200)
 	r.Floor("decode.children.ok", 1)
+	r.Extra("cpu_s", txk.CPUSeconds())
 	r.Finish("wf: seeded transactions (1-8 inputs/outputs; fully signed, partially signed, all-null) built with the harness' own encodings and textbook ECDSA, with 0-3 independently drawn rule-breaking mutations (no inputs, no outputs, signature count, repeated input, identical outputs, type, zero-coin output, coin sum >= 2^64, length field, inner hash, null signature, nine kinds of unrecoverable/non-canonical signature) plus boundary element counts 65535/65536 and random structs; Verify()==nil and VerifyUnsigned()==nil are compared with the rule list of the statement (booleans only). A case is non-trivial when the model finds a distinct set of broken rules for a distinct shape; counters signed.sole.<rule> / signed.combo.<rule> show every rule as the only failing one and in combination. decode: random bytes, valid encodings, bit flips, truncations, extensions and count-prefix edits: error or byte-identical re-encoding, never a panic.",
 		"lib/ledger.WellFormed states the rule list correctly; it uses math/big, its own byte layout and lib/refsecp (textbook recovery; signature must be low-s with recovery id < 4 as property C10 states)",
 		"VerifyUnsigned of a transaction without any null signature: the statement is silent (the function's documentation requires one); such cases are counted (unsigned.fully_signed.*) and not asserted",
@@ -565,8 +566,8 @@ func tally(check string, bad []string) {
 }
 
 func legWellFormed() {
-	n := r.Pick(24000, 600000)
-	nRandom := r.Pick(6000, 200000)
+	n := txk.Scaled(r.Pick(24000, 600000))
+	nRandom := txk.Scaled(r.Pick(6000, 200000))
 	vf.Parallel(n, 16, func(i int) {
 		g := r.Rand("wf", i)
 		c := gen(g)
@@ -667,7 +668,7 @@ type childOut struct {
 
 func legDecode() {
 	batches := r.Pick(8, 32)
-	per := r.Pick(25000, 250000)
+	per := txk.Scaled(r.Pick(25000, 250000))
 	dir := vf.TempDir("c09")
 	defer os.RemoveAll(dir)
 	vf.Parallel(batches, 8, func(b int) {
